@@ -7,3 +7,12 @@ pub fn fmt_opaque() -> (s: String)
 #[verifier::external_body]
 pub fn fmt_write_opaque() -> (r: core::result::Result<(), core::fmt::Error>)
 { unimplemented!() }
+
+/// A `str` is at most isize::MAX bytes long (allocation limit of Rust objects).
+#[verifier::external_body]
+pub broadcast proof fn axiom_str_len_bound(s: &str)
+    ensures
+        #[trigger] s.spec_bytes().len() <= usize::MAX,
+{
+}
+
